@@ -735,3 +735,99 @@ def project_of_sources(sources, keys=None):
         for r in src.subroutines:
             procs.append(_unit_record(r, fkey))
     return {'mods': mods, 'procs': procs}
+
+
+# ---------------------------------------------------------------------------------------------
+# C24: the convert / plan command line entry points, in-process
+
+TRAFO_CLASS = {'dep': ('DependencyTransformation', 'loki.transformations.build_system'),
+               'wrap': ('ModuleWrapTransformation', 'loki.transformations.build_system'),
+               'dup': ('DuplicateKernel', 'loki.transformations.dependency'),
+               'rm': ('RemoveKernel', 'loki.transformations.dependency')}
+
+
+def op_options(op):
+    if op['op'] == 'dep':
+        o = {'suffix': op['sfx']}
+        if op['msfx']:
+            o['module_suffix'] = op['msfx']
+        return o
+    if op['op'] == 'wrap':
+        return {'module_suffix': op['msfx']}
+    if op['op'] == 'dup':
+        o = {'duplicate_kernels': [op['k']], 'duplicate_suffix': op['sfx'], 'duplicate_subgraph': op['sub']}
+        if op['msfx']:
+            o['duplicate_module_suffix'] = op['msfx']
+        return o
+    return {'remove_kernels': [op['k']]}
+
+
+def cli_config(config, ops, mode, fw=None, enable_imports=True, extra_default=None, extra_routines=None):
+    """The dict written as TOML configuration file for `loki_transform convert|plan`: scheduler configuration
+    (render_config) + one transformation entry per operation + the pipeline registered under `mode`.
+    fw: options of an explicitly configured FileWriteTransformation (None: the CLI's default one);
+    seeds are marked with `seed_routine = true` (the CLI has no seed option);
+    extra_default / extra_routines: further keys (replicate, lib) for [default] / [routines.<key>]."""
+    cfg, seeds = render_config(config, Layout(plain=True), enable_imports=enable_imports)
+    cfg['default'].update(extra_default or {})
+    for s in seeds:
+        cfg['routines'].setdefault(s, {})['seed_routine'] = True
+    for k, v in (extra_routines or {}).items():
+        cfg['routines'].setdefault(k, {}).update(v)
+    cfg['transformations'] = {}
+    names = []
+    for n, op in enumerate(ops):
+        cls, mod = TRAFO_CLASS[op['op']]
+        name = f'T{n + 1}{op["op"]}'
+        cfg['transformations'][name] = {'classname': cls, 'module': mod, 'options': op_options(op)}
+        names.append(name)
+    if fw is not None:
+        cfg['transformations']['FileWriteTransformation'] = {
+            'classname': 'FileWriteTransformation', 'module': 'loki.transformations.build_system',
+            'options': {k: v for k, v in fw.items() if v not in (None, '')}}
+    cfg['pipelines'] = {mode: {'transformations': names}}
+    return cfg
+
+
+def cli_run(command, cfg, mode, source, workdir, build=None, root=None, plan_file=None):
+    """Invoke `loki_transform <command>` in-process; returns (exit code, exception text, plan text or '')."""
+    import tomli_w
+    from click.testing import CliRunner
+    from loki.cli.loki_transform import cli
+    _quiet()
+    cfile = os.path.join(workdir, f'{command}.config')
+    with open(cfile, 'w') as fh:
+        fh.write(tomli_w.dumps(cfg))
+    args = [command, f'--mode={mode}', f'--config={cfile}', '--frontend=fp', f'--source={source}', '--log-level=error']
+    if build:
+        args.append(f'--build={build}')
+    if root:
+        args.append(f'--root={root}')
+    if plan_file:
+        args.append(f'--plan-file={plan_file}')
+    res = CliRunner().invoke(cli, args)
+    exc = ''
+    if res.exception is not None and not isinstance(res.exception, SystemExit):
+        e = res.exception
+        exc = f'{type(e.__cause__ or e).__name__}: {str(e)[:300]}'
+    elif res.exit_code != 0:
+        exc = f'exit {res.exit_code}: {res.output[-200:]}'
+    text = ''
+    if plan_file and os.path.exists(plan_file):
+        with open(plan_file) as fh:
+            text = fh.read()
+    return res.exit_code, exc, text
+
+
+def parse_plan(text):
+    """The lists of a CMake plan file: {variable name: [path strings]}."""
+    import re
+    return {k: v.split() for k, v in re.findall(r'set\(\s*(\w+)\s*(.*?)\s*\)', text, flags=re.S)}
+
+
+def tree_files(root):
+    out = set()
+    for d, _, fs in os.walk(root):
+        for f in fs:
+            out.add(os.path.join(d, f))
+    return out
